@@ -27,7 +27,9 @@ EXPLANATION = (
     'of flushing a rebuild (.to_sql() / add_sql of an alter-table result); '
     'R-C18.5 AppMutator.run_mutation reuses the last ModelMutator for '
     'consecutive mutations on one model; '
-    'R-C18.2 both ops pass one and the same mergeability predicate; R-C18.5 (as rewritten) with a last mutator present and equal model names no path reaches ModelMutator(...); R-C18.6 every op the run mutations queue is mergeable.')
+    'R-C18.2 both ops pass one and the same mergeability predicate; R-C18.5 (as rewritten) with a last mutator present and equal model names no path reaches ModelMutator(...); R-C18.6 every op the run mutations queue is mergeable.'
+    ' '
+    "R-C18.6 second clause: ModelMutator.add_sql stores the caller's mergeable flag unchanged.")
 NOT_DECIDED = (
     'Rebuild counts for all sequences (needs execution and counting on the '
     'statement trace).')
@@ -409,6 +411,35 @@ def r6_run_mutations_queue_mergeable_ops(ctx):
         p.func('db.common', 'BaseEvolutionOperations._are_ops_mergeable').node) \
         and any('mergeable' in unparse(x) for x in [
             p.func('mutators.model_mutator', 'ModelMutator.add_sql').node])
+    # the flag travels unchanged from the caller into the queued op
+    add_sql = p.func('mutators.model_mutator', 'ModelMutator.add_sql')
+    if flagged:
+        from ..util import through_copies
+        stored = [v for d in walk_no_nested(add_sql.node)
+                  if isinstance(d, ast.Dict)
+                  for k, v in zip(d.keys, d.values)
+                  if const_str(k) == 'mergeable']
+        stored += [st.value for st in walk_no_nested(add_sql.node)
+                   if isinstance(st, ast.Assign) and any(
+                       isinstance(t, ast.Subscript) and
+                       const_str(t.slice) == 'mergeable'
+                       for t in st.targets)]
+        ctx.floor("'mergeable' entries of the op queued by add_sql",
+                  len(stored), 1)
+        for v in stored:
+            src = through_copies(add_sql, v)
+            if isinstance(src, ast.Name) and src.id in add_sql.params:
+                ctx.ok(add_sql, 'the op carries the caller\'s mergeable flag '
+                       'unchanged', v)
+            else:
+                ctx.finding(add_sql, v, 'add_sql stores %s instead of the '
+                            'caller\'s mergeable flag: a caller that asks for '
+                            'a mergeable op (dropping / creating the table '
+                            'of a ManyToManyField) gets a barrier for some '
+                            'argument shapes, and the model\'s table is '
+                            'rebuilt once before and once after it' %
+                            ' '.join(unparse(v).split()),
+                            key='mergeable-flag-altered')
     n = 0
     for mod, q in (('mutations.add_field', 'AddField'),
                    ('mutations.delete_field', 'DeleteField'),
